@@ -299,6 +299,15 @@ func check(c cfg, o *obs, meta *hx.Meta) {
 				cl := byCid[id]
 				batch = append(batch, id)
 				if cl == nil {
+					scribbled := len(b) > 0
+					for _, x := range b {
+						if x != 0xEE && x != 0x55 {
+							scribbled = false
+						}
+					}
+					if scribbled {
+						meta.Violate(hx.Violation{Property: "C10", What: "a payload reached the transport overwritten by the caller's later buffer reuse / a pool user (snapshot semantics broken)", Signature: "snapshot", Replay: rep()})
+					}
 					meta.Violate(hx.Violation{Property: "C01", What: fmt.Sprintf("payload %d on the transport was never written", id), Signature: "foreign", Replay: rep()})
 					continue
 				}
